@@ -140,7 +140,8 @@ fn window(run: &Run, name: &str, base: u64) {
 pub fn run(run: &Run) {
     run.set_rule(
         "Generator: (a) exhaustive windows: every entry Single(c) / Range(a..=b) with base <= a <= b <= base+32 against every code point in \
-         base-2..=base+34, for base = 0, 0x10FFEF (around U+10FFFF), u32::MAX-32 (top of the range), around U+D800, U+DFFF, U+FFFF/U+10000, 2^29 and 2^31; (b) proptest (entry, cp) pairs over all \
+         base-2..=base+34, for base = 0, 0x10FFEF (around U+10FFFF), u32::MAX-32 (top of the range), around U+D800, U+DFFF, U+FFFF/U+10000, 2^29 and 2^31; (a2) all ranges whose ends are (plane p1, low bits) .. (plane p2, low bits) for planes 0..17 and 7 low-bit patterns against code points in every plane \
+         from p1-1 to p2+1 with matching / boundary low bits (block-aligned ranges, interior blocks); (b) proptest (entry, cp) pairs over all \
          u32 with cp biased to start/end +-1; (c) proptest sorted disjoint tables (1..40 entries) probed at every boundary +-1. Oracle: the \
          mathematical definition (Less <=> end < cp, Greater <=> start > cp, Equal <=> contained) for partial_cmp, <,<=,>,>=,==,!= in both \
          operand orders; binary_search_by(partial_cmp) == linear scan. Non-trivial: cp within +-1 of start or end, or an extreme value; \
@@ -154,6 +155,37 @@ pub fn run(run: &Run) {
     window(run, "window_bmp_end", 0xffe8);
     window(run, "window_i32max", 0x7fff_ffe8);
     window(run, "window_2pow29", 0x1fff_ffe8);
+    // entries and code points built from (plane, low 16 bits): same low bits in start/end/cp, block-aligned ranges, interior blocks
+    run.par("plane_structured", true, |tid, n, l| {
+        let lows = [0u32, 1, 5, 0x7fff, 0x8000, 0xfffe, 0xffff];
+        let mut idx = 0usize;
+        for p1 in 0u32..=17 {
+            for p2 in p1..=17 {
+                for lo1 in lows {
+                    for lo2 in [lo1, 0xffff, 0, lo1.wrapping_add(1) & 0xffff] {
+                        idx += 1;
+                        if idx % n != tid {
+                            continue;
+                        }
+                        let (a, b) = ((p1 << 16) | lo1, (p2 << 16) | lo2);
+                        if a > b {
+                            continue;
+                        }
+                        let e = Entry { range: true, a, b };
+                        for pc in p1.saturating_sub(1)..=(p2 + 1).min(18) {
+                            for lo3 in [lo1, lo2, 0, 0xffff, lo1.wrapping_sub(1) & 0xffff, lo1.wrapping_add(1) & 0xffff] {
+                                l.cases += 1;
+                                if let Err(v) = check_pair(e, (pc << 16) | lo3, l) {
+                                    run.violate(v);
+                                    return;
+                                }
+                            }
+                        }
+                    }
+                }
+            }
+        }
+    });
     let mk_pairs = || {
         let special = prop_oneof![4 => any::<u32>(), 1 => 0xd7f0u32..0xe010, 1 => 0xfff0u32..0x10010, 1 => 0x10fff0u32..0x110010, 1 => 0u32..0x3000, 1 => (u32::MAX - 64)..=u32::MAX];
         (any::<bool>(), special.clone(), special, 0u8..8, -2i64..=2).prop_map(|(range, p, q, mode, delta)| {
